@@ -62,5 +62,5 @@ Flags(r) ==
     \cup ClassFlags(r)
 
 Judge == \A i \in (c * Block + 1)..Min((c + 1) * Block, N) :
-           LET f == Flags(Recs[i]) IN f = {} \/ PrintT(<<"FLAGS", i, f>>)
+           LET f == Flags(Recs[i]) IN f = {} \/ PrintT(<<"FLAGS", i, ToJson(f)>>)
 =============================================================================
